@@ -52,6 +52,21 @@ var Exprs = []Expr{
 	{Re: `([0-9]+)(px|em)`, Members: []string{"120px", "3em"}, Non: []string{"px", "12"}, Groups: true},
 }
 
+// RandomExpr assembles an expression from 1..3 quantified atoms. Everything it
+// produces is inside the route grammar's regex alphabet, compiles, and has no
+// look-around assertion; members are drawn with rapid.StringMatching.
+func RandomExpr(t *rapid.T) string {
+	atoms := []string{`[0-9]`, `[a-z]`, `[a-c0-2]`, `x`, `ab`, `\d`, `\w`, `(a|b)`, `(x|yz)`, `[A-Z]`, `(p(q)?)`, `[._-]`, `.`}
+	quants := []string{"", "", "+", "*", "?", "{1,2}", "{2}", "+?"}
+	n := rapid.IntRange(1, 3).Draw(t, "natoms")
+	var b strings.Builder
+	for i := 0; i < n; i++ {
+		b.WriteString(atoms[rapid.IntRange(0, len(atoms)-1).Draw(t, "atom")])
+		b.WriteString(quants[rapid.IntRange(0, len(quants)-1).Draw(t, "quant")])
+	}
+	return b.String()
+}
+
 // ExprByRe finds a pool expression by text.
 func ExprByRe(re string) (Expr, bool) {
 	for _, e := range Exprs {
@@ -158,8 +173,11 @@ func RegexSeg(t *rapid.T, used map[string]bool, wild bool) model.Seg {
 			ns := freshNames(t, used, k)
 			e := model.Elem{Params: []model.Param{}}
 			for j := 0; j < k; j++ {
-				x := pick(t, "expr", Exprs)
-				e.Params = append(e.Params, model.Param{Name: ns[j], IsRegex: true, Value: x.Re, Blanks: blanks(t, wild), Lead: blanks(t, wild)})
+				re := pick(t, "expr", Exprs).Re
+				if rapid.IntRange(0, 4).Draw(t, "randexpr") == 0 {
+					re = RandomExpr(t)
+				}
+				e.Params = append(e.Params, model.Param{Name: ns[j], IsRegex: true, Value: re, Blanks: blanks(t, wild), Lead: blanks(t, wild)})
 			}
 			e.Params[0].Lead = 0
 			s.Elems = append(s.Elems, e)
